@@ -10,7 +10,7 @@ if [[ "$P" == -R:* ]]; then
 else
   git apply "$P" || { echo "cannot apply"; exit 2; }
 fi
-cd /verif && ./check "$ID" "$TIER" 2>&1 | grep -vE "^  " | tail -6
+cd /verif && VERIF_OUT_DIR=/tmp/verif-scratch ./check "$ID" "$TIER" 2>&1 | grep -vE "^  " | tail -6
 rc=${PIPESTATUS[0]}
 cd /repo && git checkout -- . 
 echo "exit=$rc"
